@@ -100,6 +100,10 @@ def cases(tier, seed):
     # in-situ workload: real conversions that look the built-in specs up (contract attached)
     for i in range(6 if tier == 'quick' else 40):
         cs.append({'type': 'insitu', 'i': i, 'seed': seed * 13 + i})
+    # the repository's own tests under the in-situ lookup contract
+    from vf import suitewl
+    cs += [dict(c, type='repo-suite') for c in suitewl.cases(
+        tier, slow_in_quick=('test_regularization_loss_init',))]
     return cs
 
 
@@ -195,6 +199,10 @@ def run_constraint_semantics(ctx):
 
 
 def run_case(case, ctx):
+    if case.get('type') == 'repo-suite':
+        from vf import suitewl
+        suitewl.run(case, ctx, ('c15.insitu_contract',))
+        return
     from plinio.cost import CostSpec
     if case['type'] == 'constraint-semantics':
         return run_constraint_semantics(ctx)
